@@ -25,6 +25,7 @@ type c15Case struct {
 	Hi    string `json:"hi"`    // decimal, "" when absent
 	Count int    `json:"count"` // actual element count of the literal / fill length
 	Style int    `json:"style"` // rendering variant
+	Text  string `json:"text,omitempty"` // op=several: the text as parsed (replay re-parses it and prints the diagnostics)
 }
 
 func init() { register("C15", "exploration", runC15, replayC15) }
@@ -272,6 +273,130 @@ func c15ASCIIVar(c *ctx, cs c15Case) {
 }
 
 // c15Direct checks FillInStringLength() on templates built by the factory and by the parser.
+// c15Several: a list of several sized items in one message, on one line or several, some declarations spread over
+// lines, some violated (with equal or different actual counts): exactly one size error per violated declaration,
+// each at its declaration, whatever stands before it.
+func c15Several(c *ctx, i int, r *rng.R) {
+	n := 2 + r.Intn(4)
+	toks := []smltext.Tok{smltext.H("S1F1"), smltext.H("W"), smltext.H("H->E"), smltext.H("<"), smltext.H("L")}
+	type decl struct {
+		idx      int
+		violated bool
+	}
+	var decls []decl
+	sameCount := r.Intn(3) // several items share this actual count now and then
+	for k := 0; k < n; k++ {
+		typ := []string{"U1", "I2", "B", "BOOLEAN", "F4", "A"}[r.Intn(6)]
+		cnt := r.Intn(4)
+		if r.Bool() {
+			cnt = sameCount
+		}
+		violated := r.Chance(1, 2)
+		lo, hi := cnt, cnt
+		form := []string{"n", "a..b", "a..", "..b"}[r.Intn(4)]
+		switch form {
+		case "a..b":
+			lo, hi = cnt-r.Intn(cnt+1), cnt+r.Intn(3)
+		}
+		if violated {
+			switch form {
+			case "n":
+				lo = cnt + 1 + r.Intn(2)
+				hi = lo
+			case "a..b":
+				lo, hi = cnt+1, cnt+1+r.Intn(3)
+			case "a..":
+				lo = cnt + 1 + r.Intn(3)
+			default:
+				if cnt == 0 {
+					form, lo, hi = "n", 1, 1
+				} else {
+					hi = cnt - 1
+				}
+			}
+		}
+		style := 0
+		if r.Chance(1, 2) {
+			style = 1 + 4*r.Intn(len(innerSpacers)) // blanks, tabs, line breaks inside the brackets
+		}
+		d := sizeTokenStyled(form, fmt.Sprint(lo), fmt.Sprint(hi), style, 0)
+		toks = append(toks, smltext.H("<"), smltext.H(typ))
+		decls = append(decls, decl{len(toks), violated})
+		toks = append(toks, smltext.H(d))
+		for v := 0; v < cnt; v++ {
+			switch typ {
+			case "BOOLEAN":
+				toks = append(toks, smltext.H("T"))
+			case "A":
+				toks = append(toks, smltext.H("0x41"))
+			case "F4":
+				toks = append(toks, smltext.H("1.5"))
+			default:
+				toks = append(toks, smltext.H(fmt.Sprint(v+1)))
+			}
+		}
+		toks = append(toks, smltext.H(">"))
+	}
+	toks = append(toks, smltext.H(">"), smltext.H("."))
+	gaps := make([]string, len(toks))
+	oneLine := r.Chance(1, 2)
+	for k := range gaps {
+		gaps[k] = " "
+		if !oneLine && r.Chance(1, 4) {
+			gaps[k] = []string{"\n", "\n  ", "\r\n", " \n\n "}[r.Intn(4)]
+		}
+	}
+	gaps[len(gaps)-1] = ""
+	rd := smltext.Render(toks, "", gaps, nil)
+	msgs, errs, _, o := smlParse(rd.Text)
+	nviol := 0
+	for _, d := range decls {
+		if d.violated {
+			nviol++
+		}
+	}
+	c.Note(rng.HashStr(rd.Text), nviol >= 1 && len(decls) >= 2)
+	c.Class("several-sized-items-in-one-message")
+	if nviol >= 2 {
+		c.Class("several-violated-declarations")
+	}
+	cs := c15Case{Op: "several", Text: rd.Text}
+	if o.Panicked {
+		c.Violation("C15/parser-panicked", o.String(), cs)
+		return
+	}
+	if nviol == 0 {
+		if len(errs) > 0 || len(msgs) != 1 {
+			c.Violation("C15/within-bounds-rejected/several", fmt.Sprintf("errors %q text %q", errs, clipS(rd.Text)), cs)
+		}
+		return
+	}
+	if len(msgs) != 0 {
+		c.Violation("C15/message-returned-with-error", fmt.Sprint(errs), cs)
+		return
+	}
+	for _, d := range decls {
+		at := rd.Tok[d.idx]
+		hits := 0
+		for _, e := range errs {
+			if p, _, ok := smltext.ParseDiag(e); ok && p == at {
+				hits++
+			}
+		}
+		if d.violated && hits != 1 {
+			c.Violation("C15/size-error-missing-at-a-declaration/several", fmt.Sprintf("violated declaration %q at Ln %d, Col %d has %d errors; errors %q; text %q", toks[d.idx].S, at.Line, at.Col, hits, errs, clipS(rd.Text)), cs)
+			return
+		}
+		if !d.violated && hits != 0 {
+			c.Violation("C15/size-error-at-a-satisfied-declaration/several", fmt.Sprintf("declaration %q at Ln %d, Col %d; errors %q; text %q", toks[d.idx].S, at.Line, at.Col, errs, clipS(rd.Text)), cs)
+			return
+		}
+	}
+	if len(errs) != nviol {
+		c.Violation("C15/unexpected-errors/several", fmt.Sprintf("%d violated declarations, errors %q; text %q", nviol, errs, clipS(rd.Text)), cs)
+	}
+}
+
 func c15Direct(c *ctx) {
 	for lo := 0; lo <= 6; lo++ {
 		for hi := -1; hi <= 6; hi++ {
@@ -479,7 +604,8 @@ func runC15(c *ctx) {
 		}
 	}
 	c15Direct(c)
-	c.Required = []string{"literal/within", "literal/outside", "literal/form=n", "literal/form=a..b", "literal/form=a..", "literal/form=..b", "asciivar/fill-accepted", "asciivar/fill-refused", "asciivar/inverted-bounds", "direct-fill", "zero-padded-bounds", "same-name-other-bounds", "sized-items-with-variables-or-a-second-error"}
+	c.parallel(c.pick(30000, 300000), func(i int, r *rng.R) { c15Several(c, i, r) })
+	c.Required = []string{"several-sized-items-in-one-message", "several-violated-declarations", "literal/within", "literal/outside", "literal/form=n", "literal/form=a..b", "literal/form=a..", "literal/form=..b", "asciivar/fill-accepted", "asciivar/fill-refused", "asciivar/inverted-bounds", "direct-fill", "zero-padded-bounds", "same-name-other-bounds", "sized-items-with-variables-or-a-second-error"}
 }
 
 func replayC15(c *ctx, raw json.RawMessage) {
